@@ -82,6 +82,14 @@ def run(ctx):
     blobs = []
     for t in texts[:60]:
         blobs += [t[:k] for k in range(0, len(t) + 1)]          # every truncation
+    # \uXXXX escapes (never produced by toJSON, but legal input): complete, short, and cut off at every offset
+    for t in texts[:40]:
+        q = [i for i, ch in enumerate(t) if ch == 0x22]
+        if len(q) >= 2:
+            i = rng.choice(q[::2]) + 1
+            u = t[:i] + rng.choice([b"\\u00e4", b"\\u12", b"\\u", b"\\u0", b"\\uzzzz", b"\\u00e4\\u20ac"]) + t[i:]
+            blobs += [u[:k] for k in range(max(0, i - 1), min(len(u), i + 16))] + [u]
+    blobs += [b'["' + b"x" * 20 + b'\\u', b'["' + b"x" * 20 + b'\\u0', b'["' + b"x" * 20 + b'\\u00', b'{"' + b"k" * 30 + b'":"\\u123', b'["\\u00","b"]', b'["\\u0041","b"]']
     for _ in range(8000 if quick else 300000):
         blobs.append(values.mutate(rng, rng.choice(texts)))
     for _ in range(2000 if quick else 100000):
